@@ -742,9 +742,9 @@ func main() {
 			add(v)
 			if v.K != progen.VNull {
 				muts := mutate(v)
-				limit := 400
+				limit := 6000
 				if r.Thorough() {
-					limit = 6000
+					limit = 60000
 				}
 				if len(muts) > limit {
 					// evenly spaced positions (a stated sub-bound, recorded as a cap)
